@@ -65,6 +65,10 @@ def directed_cases(seed: int, tier: str) -> typing.List[dict]:
                 "subset-then-whole": [dict(base, subset_pick=0), dict(base)],
                 "permuted": [dict(base, order_seed=11), dict(base, order_seed=12)],
                 "abort-then-whole": [dict(base, abort_at=2), dict(base)],
+                "same-twice": [dict(base), dict(base), dict(base, entry="cli")],
+                "abort-mid-file-then-reuse": [dict(base, abort_at=5, abort_style="write"), dict(base, reuse=True), dict(base)],
+                "edited-inputs-first": [dict(base, variant=True), dict(base), dict(base, variant=True)],
+                "other-support-namespace-first": [dict(base), dict(base, support_ns="acme.support"), dict(base)],
                 "reuse": [dict(base), dict(base, reuse=True)],
                 "reuse-other-omit": [dict(base, omit_ser=True), dict(base, reuse=True, omit_ser=False), dict(base, reuse=True, omit_ser=True)],
                 "other-lang-first": [dict(base, lang=LANGS[(li + 1) % 3], templates=None, pp={}), dict(base, subset_pick=1)],
@@ -171,11 +175,14 @@ def api_generate(cx: Ctx, op: dict, out_dir: str) -> typing.Dict[str, str]:
 
     root_dir = os.path.join(cx.world.in_dir, op["root"])
     lookups = [os.path.join(cx.world.in_dir, x) for x in op.get("lookups", [])]
-    gkey = repr(sorted((k, str(v)) for k, v in op.items() if k not in ("reuse", "abort_at", "order_seed", "omit_ser")))
+    gkey = repr(sorted((k, str(v)) for k, v in op.items() if k not in ("reuse", "abort_at", "abort_style", "order_seed", "omit_ser")))
     if op.get("reuse") and gkey in cx.generators:
         ns, gen, sgen = cx.generators[gkey]
     else:
-        lctx = LanguageContextBuilder(include_experimental_languages=True).set_target_language(op["lang"]).create()
+        bld = LanguageContextBuilder(include_experimental_languages=True).set_target_language(op["lang"])
+        if op.get("support_ns"):
+            bld.set_target_language_configuration_override("support_namespace", op["support_ns"])
+        lctx = bld.create()
         types = pydsdl.read_namespace(root_dir, lookups, allow_unregulated_fixed_port_id=True)
         if op.get("subset") is not None:
             keep = set(op["subset"])
@@ -367,13 +374,21 @@ def run_case(case: dict, ctx: dict) -> dict:
                     # generate_all() again on the generator object of the previous invocation, possibly with another
                     # omit_serialization_support argument (a per-call parameter of the same object)
                     prev_t = templates[-1]
-                    t = {k: v for k, v in prev_t.items() if k not in ("abort_at", "reuse")}
+                    t = {k: v for k, v in prev_t.items() if k not in ("abort_at", "abort_style", "reuse", "variant")}
                     t["reuse"] = True
                     t["entry"] = "api"
                     if ro.chance(1, 2):
                         t["omit_ser"] = not prev_t.get("omit_ser", False)
-                if ro.chance(1, 6):
+                if ro.chance(1, 5):
                     t["abort_at"] = ro.between(1, 12)
+                    if ro.chance(1, 2):
+                        t["abort_style"] = "write"
+                if ro.chance(1, 8):
+                    t["support_ns"] = ro.choice(["acme.support", "x"])
+                    t["entry"] = "api"
+                if ro.chance(1, 6):
+                    t["variant"] = True  # this invocation sees an edited copy of the inputs (no subset)
+                    t.pop("subset_pick", None)
                 if ro.chance(1, 8):
                     t["omit_ser"] = True
                 templates.append(t)
@@ -399,15 +414,36 @@ def run_case(case: dict, ctx: dict) -> dict:
                 rs = Rng("subset", pick, op["root"])
                 seeds = rs.sample(all_keys, max(1, min(len(all_keys), 1 + rs.below(3))))
                 op["subset"] = closure_of(types_by_root[op["root"]], seeds)
+            if op.get("support_ns") or op.get("variant") and op.get("subset") is not None:
+                op["entry"] = "api"
+            if op.get("variant"):
+                op.pop("subset", None)
             op.setdefault("entry", "api")
             ops.append(op)
+
+    # ---- an edited copy of the inputs (a dependency moved to another type of identical layout), used by "variant" ops;
+    # it is swapped in at the SAME absolute input path, so nothing but the edit differs
+    variant_files = dsdlgen.same_layout_variant(files)
+    variant_dir = os.path.join(sandbox, "in.variant")
+    if variant_files is not None:
+        dsdlgen.materialize_files(variant_files, roots, variant_dir)
+
+    def swap_inputs(to_variant: bool) -> None:
+        if variant_files is None:
+            return
+        if to_variant:
+            os.rename(world.in_dir, world.in_dir + ".orig")
+            os.rename(variant_dir, world.in_dir)
+        else:
+            os.rename(world.in_dir, variant_dir)
+            os.rename(world.in_dir + ".orig", world.in_dir)
 
     # ---- references: the whole namespace in identity order, each in a pristine fork()ed child
     ref_cache = {}  # type: typing.Dict[str, typing.Optional[typing.Dict[str, bytes]]]
     evaluations = 0
 
     def ref_key(op: dict) -> str:
-        return repr((op["root"], op["lang"], op.get("templates"), sorted((op.get("pp") or {}).items()), bool(op.get("ns_types")), bool(op.get("omit_ser"))))
+        return repr((op["root"], op["lang"], op.get("templates"), sorted((op.get("pp") or {}).items()), bool(op.get("ns_types")), bool(op.get("omit_ser")), op.get("support_ns"), bool(op.get("variant"))))
 
     def reference(op: dict) -> typing.Optional[typing.Dict[str, bytes]]:
         nonlocal evaluations
@@ -416,9 +452,12 @@ def run_case(case: dict, ctx: dict) -> dict:
             return ref_cache[k]
         out_dir = os.path.join(sandbox, "ref-out")
         nnvg._force_rmtree(out_dir)  # pylint: disable=protected-access
-        clean = {kk: vv for kk, vv in op.items() if kk in ("root", "lookups", "lang", "templates", "pp", "ns_types", "omit_ser")}
+        clean = {kk: vv for kk, vv in op.items() if kk in ("root", "lookups", "lang", "templates", "pp", "ns_types", "omit_ser", "support_ns")}
+        use_variant = bool(op.get("variant")) and variant_files is not None
 
         def child() -> typing.Any:
+            if use_variant:
+                swap_inputs(True)
             s = Seams({"sandbox": sandbox, "clock": dict(nnvg.FROZEN_CLOCK), "sort_enum": True})
             s.install()
             install_order_seam()
@@ -427,6 +466,10 @@ def run_case(case: dict, ctx: dict) -> dict:
                 return {"ok": True, "paths": keys}
             except Exception as ex:  # pylint: disable=broad-except
                 return {"ok": False, "err": "%s: %s" % (type(ex).__name__, ex)}
+            finally:
+                if use_variant:
+                    s.enabled = False
+                    swap_inputs(False)  # the disk is shared with the parent: put the original inputs back
 
         res = proc.run_in_fork(child, timeout_s=120)
         evaluations += 1
@@ -463,17 +506,28 @@ def run_case(case: dict, ctx: dict) -> dict:
             continue
         out_dir = os.path.join(sandbox, "out", "%d" % i)
         if op.get("reuse"):
-            gkey = repr(sorted((k, str(v)) for k, v in op.items() if k not in ("reuse", "abort_at", "order_seed", "omit_ser")))
-            prev = [j for j in range(i) if repr(sorted((k, str(v)) for k, v in ops[j].items() if k not in ("reuse", "abort_at", "order_seed", "omit_ser"))) == gkey and ops[j].get("entry", "api") == "api"]
+            gkey = repr(sorted((k, str(v)) for k, v in op.items() if k not in ("reuse", "abort_at", "abort_style", "order_seed", "omit_ser")))
+            prev = [j for j in range(i) if repr(sorted((k, str(v)) for k, v in ops[j].items() if k not in ("reuse", "abort_at", "abort_style", "order_seed", "omit_ser"))) == gkey and ops[j].get("entry", "api") == "api"]
             if prev and op.get("entry", "api") == "api":
                 out_dir = os.path.join(sandbox, "out", "%d" % prev[-1])
                 bump("probes", "generator_object_reused")
         seams.fault = None
         seams.fault_fired = None
         seams.mut_count = 0
+        seams.wopen_count = 0
         if op.get("abort_at") is not None:
-            seams.fault = {"kind": "oserror", "errno": "EIO", "at": op["abort_at"] * 3}
+            if op.get("abort_style") == "write":
+                # the exception strikes in the middle of a file (after some lines went through the post-processors)
+                seams.fault = {"kind": "write_oserror", "errno": "EIO", "file": op["abort_at"] % 4, "write": (op["abort_at"] * 7) % 23, "partial": 50}
+            else:
+                seams.fault = {"kind": "oserror", "errno": "EIO", "at": op["abort_at"] * 3}
         aborted = False
+        swapped = bool(op.get("variant")) and variant_files is not None
+        if swapped:
+            seams.enabled = False
+            swap_inputs(True)
+            seams.enabled = True
+            bump("probes", "invocation_over_edited_inputs")
         try:
             if op.get("entry") == "cli":
                 cli_generate(cx, op, out_dir, os.path.join(sandbox, "in-subset-%d" % i))
@@ -490,8 +544,12 @@ def run_case(case: dict, ctx: dict) -> dict:
                 bump("ops", "invocation-raised:" + type(ex).__name__)
         finally:
             seams.fault = None
+            if swapped:
+                seams.enabled = False
+                swap_inputs(False)
+                seams.enabled = True
         evaluations += 1
-        desc = "%s|%s|%s|%s|sub=%s|ord=%s|reuse=%s|abort=%s" % (op.get("entry"), op["lang"], op.get("templates"), sorted((op.get("pp") or {}).items()), "all" if op.get("subset") is None else len(op["subset"]), op.get("order_seed") is not None, bool(op.get("reuse")), op.get("abort_at") is not None)
+        desc = "%s|%s|%s|%s|sub=%s|ord=%s|reuse=%s|abort=%s|sns=%s|var=%s" % (op.get("entry"), op["lang"], op.get("templates"), sorted((op.get("pp") or {}).items()), "all" if op.get("subset") is None else len(op["subset"]), op.get("order_seed") is not None, bool(op.get("reuse")), (op.get("abort_style") or "call") if op.get("abort_at") is not None else None, op.get("support_ns"), bool(op.get("variant")))
         trace.append(desc)
         if aborted:
             continue
@@ -558,7 +616,7 @@ def reductions(case: dict) -> typing.Iterator[dict]:
             c["ops"] = ops[:i] + ops[i + 1 :]
             yield c
     for i, op in enumerate(ops):
-        for k, neutral in (("abort_at", None), ("order_seed", None), ("reuse", None), ("subset", None), ("entry", "api"), ("omit_ser", None), ("pp", {}), ("templates", None)):
+        for k, neutral in (("abort_at", None), ("variant", None), ("support_ns", None), ("order_seed", None), ("reuse", None), ("subset", None), ("entry", "api"), ("omit_ser", None), ("pp", {}), ("templates", None)):
             if op.get(k) not in (neutral, None):
                 c = dict(case)
                 c["ops"] = [dict(o) for o in ops]
